@@ -193,6 +193,11 @@ mut2("hkl_control_lock_around_generation", ["C05", "C06"], "control", [
      "    with _gen_lock:\n        H = genhkl_base(unit_cell, \n                      spg.syscond, \n                      sintlmin, sintlmax, \n                      crystal_system=spg.crystal_system, \n                      Laue_class = spg.Laue,\n                      cell_choice = spg.cell_choice,\n                      output_stl=True)\n\n    Hall = n.zeros((0,4))", 1),
 ], note="genhkl_all serialises the traversal with a module-level lock")
 
+mut("c20_control_deprecation_warning", ["C20", "C05"], "control", "xfab/tools.py",
+    "    U = n.asarray( U_matrix, float)\n    if CHECKS.activated: checks._check_rotation_matrix(U)\n\n    b_mat = form_b_mat(unit_cell)",
+    "    warnings.warn('the 2*pi convention of xfab.tools is deprecated, use xfab.laue', DeprecationWarning, stacklevel=2)\n    U = n.asarray( U_matrix, float)\n    if CHECKS.activated: checks._check_rotation_matrix(U)\n\n    b_mat = form_b_mat(unit_cell)",
+    note="a maintainer starts deprecating xfab.tools (the commented-out _two_pi_deprecated in the source): a DeprecationWarning is not a rejection of a valid input, also when the client treats run-time warnings as errors")
+
 if __name__ == "__main__":
     subprocess.check_call("rm -rf %s && mkdir -p %s" % (OUT, OUT), shell=True)
     index = []
